@@ -113,7 +113,10 @@ class TreeGen:
         if r.random() < 0.35:
             self.kinds.add("breakif-in-for")
             brk = (r.randint(0, len(body)), self.cond(vars_))
-        return ("for", r.choice(vars_), r.randint(1, 3), body, iname, chk, r.random() < 0.5, brk)
+        start = r.choice([None, None, 0, 1, 2])
+        if start is not None:
+            self.kinds.add("range-with-start")
+        return ("for", r.choice(vars_), r.randint(1, 3) + (start or 0), body, iname, chk, r.random() < 0.5, brk, start)
 
     def program(self):
         return self.stmts(0, list(self.VARS))
@@ -182,13 +185,13 @@ def render(tree, api):
                 if api:
                     emit(ind, "_endwhile(ctx=_)")
             elif k == "for":
-                _, sv, mx, body, iv, chk, use_i, fbrk = st
+                _, sv, mx, body, iv, chk, use_i, fbrk, start = st
                 if api:
-                    emit(ind, "for %s in _range(_.%s, max=%d, ctx=_%s):" % (iv, sv, mx, ", checkstopmax=True" if chk else ""))
+                    emit(ind, "for %s in _range(%s_.%s, max=%d, ctx=_%s):" % (iv, "" if start is None else "%d, " % start, sv, mx, ", checkstopmax=True" if chk else ""))
                 else:
-                    emit(ind, "if %s < 0: NEG.append(%s)" % (sv, sv))
+                    emit(ind, "if %s < %d: NEG.append(%s)" % (sv, start or 0, sv))
                     emit(ind, "_n%s, _brk%s = %s, False" % (iv, iv, sv))
-                    emit(ind, "for %s in range(min(%s, %d)):" % (iv, sv, mx))
+                    emit(ind, "for %s in range(%d, min(%s, %d)):" % (iv, start or 0, sv, mx))
                 if use_i:
                     emit(ind + 1, "%s = %s + %s" % (("_.%s" % sv) if False else (("_.a" if api else "a")), ("_.a" if api else "a"), iv))
                 for i, b in enumerate(body + [None]):
@@ -303,7 +306,7 @@ def worker(job):
                 R.count("for_negative_bound_runs")
                 same = out.exc is None and all(getattr(out.ns["RES"].vals.get(k), "value", None) == tns[k] for k in ("a", "b", "c"))
                 if not same:
-                    R.violation("for-loop-negative-secret-bound", "for over _range(secret < 0, max): native range is empty, the oblivious loop runs max iterations (%s)" % (
+                    R.violation("for-loop-negative-secret-bound", "for over _range([start,] secret below start, max): native range is empty, the oblivious loop runs on to max (%s)" % (
                         repr(out.exc)[:80] if out.exc else "final values differ"), **det)
                 R.case(cell="%s|negative-bound" % kinds, key=key)
                 continue
